@@ -146,13 +146,19 @@ Inductive estmt := ECheck | ERetIfErr | ELock | EUnlock | EDeferUnlock | EDeferC
 (* the monitor goroutine of subprocessMonitoring.runProcessMonitoring *)
 Inductive mstmt := MOnTrue | MWaitCtx | MCancel | MStop | MStopGuarded | MOnFalse.
 
+(* Subprocess.Start *)
+Inductive tstmt := TIfOnReturn | TLock | TUnlock | TDeferUnlock | TCheck | TRetIfErr | TReset | TRunMonitoring | TGetCmd | TCmdStart
+                 | TFailStart | TPid | TRunningTrue | TSetPid | TLogStarted | TReturn.
+
 Record facts := mkFacts {
   g_setpgid : list spval;            (* one per platform file that has the field (linux, darwin) *)
   g_cancel_hook : list chook;
   g_waitdelay : list bool;           (* WaitDelay assigned *)
   g_killgroup : list (list kstmt);
   g_run : list rstmt; g_stop : list sstmt; g_cancel : list cstmt; g_stop_outer : list ostmt;
-  g_execute : list estmt; g_monitor : list mstmt }.
+  g_execute : list estmt; g_monitor : list mstmt;
+  g_start : list tstmt;
+  g_check_pure : bool               (* Subprocess.check / command.Check only test fields of the object (they call nothing that looks at the world) *) }.
 
 Definition rcode (r : rstmt) : nat := match r with RLockR => 0 | RDeferUnlockR => 1 | RNilCheck => 2 | RRunPlain => 3 | RStart => 4
   | RRetIfErr => 5 | RCapture => 6 | RWatcher => 7 | RWait => 8 | RCloseDone => 9 | RPostKill => 10 | RFlush => 11 | RReturn => 12 end.
@@ -202,10 +208,22 @@ Definition exec_flags (F : facts) : bool :=
 (* the monitor calls stop, unconditionally, once the process context is done *)
 Definition mon_stops (F : facts) : bool := has 3 (after 1 (map mcode (g_monitor F))).
 
+Definition tcode (t : tstmt) : nat := match t with TIfOnReturn => 0 | TLock => 1 | TUnlock => 2 | TDeferUnlock => 3 | TCheck => 4
+  | TRetIfErr => 5 | TReset => 6 | TRunMonitoring => 7 | TGetCmd => 8 | TCmdStart => 9 | TFailStart => 10 | TPid => 11
+  | TRunningTrue => 12 | TSetPid => 13 | TLogStarted => 14 | TReturn => 15 end.
+(* Start: the mutex is taken before the command is started and only released by the deferred Unlock; IsOn is tested again
+   between Lock and the start of the command *)
+Definition start_locks (F : facts) : bool :=
+  let l := map tcode (g_start F) in has 1 (before 9 l) && negb (has 2 (before 9 (after 1 l))).
+Definition start_rechecks (F : facts) : bool := has 0 (before 9 (after 1 (map tcode (g_start F)))).
+Definition start_ok (F : facts) : bool := start_locks F && start_rechecks F.
+(* stop() runs Check() before it kills anything: Check must not be able to fail on a running subprocess *)
+Definition check_pure (F : facts) : bool := g_check_pure F.
+
 (* what cancel_kills_group needs of the source *)
 Definition facts_ok (F : facts) : bool :=
   kill_works F && run_watches F && run_postkill F && stop_kills_before_wait F && cancel_lockfree F && stop_rechecks F &&
-  stop_clears_running F && exec_holds_lock F && exec_flags F && mon_stops F.
+  stop_clears_running F && exec_holds_lock F && exec_flags F && mon_stops F && check_pure F.
 
 Definition kill_leader (tb : list proc) : list proc := map (fun p => if lead p then set_dead p else p) tb.   (* default cmd.Cancel: Process.Kill *)
 
@@ -237,7 +255,8 @@ Definition main_step (s : st) : option st :=
    [set] stores the new pc of the calling thread. *)
 Definition stop_step (who : owner) (cancel : bool) (p : spc) (set : st -> spc -> st) (s : st) : option st :=
   match p with
-  | P0 => if is_on s then Some (set s P1) else Some (set s PDone)
+  | P0 => (* if !IsOn() return; err = Check(); if err != nil return  — a Check that looks at the world may fail here *)
+      if is_on s && check_pure F then Some (set s P1) else Some (set s PDone)
   | P1 => if mu_free s then
             if is_on s || negb (stop_rechecks F) then Some (set (with_mu s (Some who)) PT)
             else Some (set (with_ctx s (ctx_done s || cancel)) PDone)
@@ -364,3 +383,32 @@ Definition check_case (c : case) : bool :=
   Bool.eqb (call_returned s) (c_returned c) && surv_ok (survivors (tbl s)) (c_survivors c) && Bool.eqb (is_on s) (c_ison c).
 
 End Facts.
+
+(* ---------- concurrent Start() calls on one object (any number of callers, any interleaving) ----------
+   A0: the unlocked  if s.IsOn() { return };  A1: waiting for s.mu;  A2: under the lock, IsOn tested again (if the source
+   does);  A3: spawning (cmd.Start, isRunning = true), then the deferred Unlock. *)
+Inductive apc := A0 | A1 | A2 | A3 | ADone.
+Record ast := mkAst { a_lock : option nat; a_on : bool; a_count : nat (* instances spawned *); a_pc : nat -> apc }.
+Definition a_init : ast := mkAst None false 0 (fun _ => A0).
+Definition a_set (f : nat -> apc) (i : nat) (p : apc) : nat -> apc := fun j => if Nat.eqb j i then p else f j.
+
+Section Starts.
+Variable F : facts.
+Definition a_step (s : ast) (i : nat) : option ast :=
+  match a_pc s i with
+  | A0 => Some (mkAst (a_lock s) (a_on s) (a_count s) (a_set (a_pc s) i (if a_on s then ADone else A1)))
+  | A1 => if start_locks F then
+            match a_lock s with
+            | None => Some (mkAst (Some i) (a_on s) (a_count s) (a_set (a_pc s) i A2))
+            | Some _ => None
+            end
+          else Some (mkAst (a_lock s) (a_on s) (a_count s) (a_set (a_pc s) i A2))
+  | A2 => if start_rechecks F && a_on s
+          then Some (mkAst (if start_locks F then None else a_lock s) (a_on s) (a_count s) (a_set (a_pc s) i ADone))
+          else Some (mkAst (a_lock s) (a_on s) (a_count s) (a_set (a_pc s) i A3))
+  | A3 => Some (mkAst (if start_locks F then None else a_lock s) true (S (a_count s)) (a_set (a_pc s) i ADone))
+  | ADone => None
+  end.
+Definition a_run (s : ast) (sched : list nat) : ast :=
+  fold_left (fun s i => match a_step s i with Some s' => s' | None => s end) sched s.
+End Starts.
